@@ -418,6 +418,7 @@ type State struct {
 	Held    map[string]*Held
 	FreshRefs map[string]bool
 	FreshTypes map[string]*types.Named // struct type of fresh references (for object invariants)
+	Escaped   []escapedRef // objects handed to code outside the function through a channel: their receiver may edit them at any time
 	Owned     []*Term // channels this goroutine alone may close (ghost owns): exempt from interference, also after being shared
 	Panicking bool
 	PanicVal  *Val
@@ -464,6 +465,7 @@ func (s *State) Clone() *State {
 		FreshList: s.FreshList[:len(s.FreshList):len(s.FreshList)],
 		FreshTypes: s.FreshTypes,
 		Owned:     s.Owned,
+		Escaped:   s.Escaped,
 		LiveIters: s.LiveIters[:len(s.LiveIters):len(s.LiveIters)],
 	}
 	for k, v := range s.Cells {
@@ -801,6 +803,11 @@ func (s *State) assumeValAllocated(v *Val) {
 	for _, f := range v.Fields {
 		s.assumeValAllocated(f)
 	}
+}
+
+type escapedRef struct {
+	Ref  *Term
+	Root *types.Named
 }
 
 type loopEntrySnap struct {
